@@ -617,3 +617,39 @@ def check_aux(ctx, rule):
                         bad = True
         if not bad:
             ctx.holds(rule, f"{Bc.short}.{attr}", f"re-initialised after each of the {nst} buffer truncations on every path", ci=Bc)
+
+
+def check_recover(ctx, rule):
+    """A prefix that is well-formed XML (a complete element) but is rejected by the message parser can never
+    become a message by waiting for more data: it must be consumed, otherwise it blocks everything behind it
+    until the threshold forces a cleanup - for ever when the threshold is disabled."""
+    f, paths = explore_process(ctx, may_raise=True, max_while=1)
+    bad = False
+    n = 0
+    for pa in paths:
+        import ast as _ast
+        rej = [e for e in pa.events if e.kind == "raise" and e.data.get("implicit") and e.node is not None and "from_string" in _ast.unparse(e.node)]
+        if not rej:
+            continue
+        for it_idx, evs, how in iteration_segments(pa, f):
+            seg_rej = [e for e in evs if e in rej]
+            if not seg_rej:
+                continue
+            n += 1
+            if how not in ("break", "return"):
+                continue
+            last = seg_rej[-1]
+            consumed = False
+            for e in evs:
+                if e.idx > last.idx and e.kind == "store" and e.data.get("attr") == "data" and show(e.data["base"]) == "self":
+                    k, amt = classify_store(pa.interp, e.data["value"])
+                    if k == "suffix" and amt >= 1:
+                        consumed = True
+            tn = threshold_none_path(pa)
+            if not consumed:
+                ctx.violated(rule, f.short, "a complete (well-formed) element that the message parser rejects is left at the head of the buffer when process() gives up: every valid message behind it is blocked until more than the threshold has accumulated" + (" - for ever on this path, where the threshold is disabled" if tn else ""), fi=f, node=last.node, text=f"invalid-element-retained:{'threshold-None' if tn else 'threshold'}", witness='<newSwitchVector device="D" name="S"><oneSwitch name="A">Maybe</oneSwitch></newSwitchVector> followed by a valid getProperties')
+                bad = True
+    if n == 0:
+        ctx.undecided(rule, f.short, "no path with a rejected complete element explored", fi=f)
+    elif not bad:
+        ctx.holds(rule, f.short, f"{n} iterations with a rejected complete element: it is consumed before process() waits for more data", fi=f)
